@@ -571,7 +571,23 @@ class World:
             raise NeedsContract(f"call to {entry.qualname} at line {line} matches no declared case: "
                                 f"{ {k: _tname(v) for k, v in a.items()} }")
         self.contracts_used.add(f"{entry.qualname}[{case.name}]")
+        outside = case.options().get("outside_domain_raises", {})
+        totality = bool(ex.case is not None and ex.case.options().get("may_raise"))
         for label, f in case.requires(a):
+            if totality and label in outside and f is not True:
+                # totality proofs only: outside this part of its domain the callee is ASSUMED (recorded, bounded-checked)
+                # to raise one of the listed exception types and nothing else
+                self.assumed_used.add(f"outside-domain: {entry.qualname} raises only {'/'.join(e.__name__ for e in outside[label])} when `{label}` fails")
+                for exc in outside[label]:
+                    s_r = st.fork(sym.Not(f) if f is not False else None, f"L{line}!{exc.__name__}")
+                    if ex.feasible(s_r):
+                        ex.pending_raise(s_r, ExcVal(exc, line=line))
+                if f is False:
+                    return
+                st.assume(f)
+                if not ex.feasible(st):
+                    return
+                continue
             ex.oblige(st, f, "pre", f"{entry.qualname}.{label}", line=line)
             if f is False:
                 return
@@ -595,6 +611,10 @@ class World:
             return
         r = case.result(ex.fresh, a)
         for label, f in case.assume(ex.fresh, r, a):
+            if f is False:
+                # the abstract result contradicts the contract's own postcondition: assuming it would silently kill the
+                # path (and make everything after the call vacuously true)
+                raise Unsupported(f"contract {entry.qualname}[{case.name}]: result() violates its own clause `{label}` at line {line}")
             st.assume(f)
         yield st, r
 
@@ -652,6 +672,10 @@ class World:
         from .stdlib import KeyedStr
 
         keyed_format = isinstance(recv, KeyedStr) and name == "format"
+        if isinstance(recv, dict) and name == "get" and args and not kw and not (is_sym(args[0]) or isinstance(args[0], Obj) or hasattr(args[0], "_symstr")):
+            # concrete key: an ordinary look-up, whatever the values / the default are
+            yield st, recv.get(*args)
+            return
         if keyed_format or any(is_sym(x) or isinstance(x, Obj) or hasattr(x, "_symstr") for x in list(args) + list(kw.values())):
             h = self.stdlib.get(id(bm.func))
             if h is None:
